@@ -171,7 +171,20 @@ func TestC19(t *testing.T) {
 			Repeats: rapid.IntRange(1, 4).Draw(rt, "repeats"), Batch: rapid.SampledFrom([]int{1, 3, 32}).Draw(rt, "batch")}
 		for i := 0; i < n; i++ {
 			var st *lib.Stmt
-			switch rapid.IntRange(0, 9).Draw(rt, "kind") {
+			switch rapid.IntRange(0, 10).Draw(rt, "kind") {
+			case 8:
+				// round 12: ORDER BY on a value of dynamic kind (a JSON member:
+				// a number where the column is typed as text) - the comparator
+				// renders such values, once per comparison and statement
+				doc := rapid.SampledFrom([]string{"value", `'{"n": 5, "s": "x"}'`, `'{"n": 2.5}'`}).Draw(rt, "jsonDoc")
+				member := rapid.SampledFrom([]string{"a", "n", "s"}).Draw(rt, "jsonMember")
+				dir := rapid.SampledFrom([]string{"", " desc"}).Draw(rt, "jsonOrderDir")
+				q := fmt.Sprintf("select key, json(%s)['%s'] as f1 where key >= '' order by f1%s, key", doc, member, dir)
+				c.Stmts = append(c.Stmts, nil)
+				c.Queries = append(c.Queries, q)
+				c.Modes = append(c.Modes, rapid.SampledFrom([]string{"row", "batch"}).Draw(rt, "mode"))
+				c.Writers = append(c.Writers, false)
+				continue
 			case 0:
 				st = lib.GenPut(rt, kind, pairs, true)
 			case 1:
